@@ -224,7 +224,8 @@ def main():
   inconclusive = []
   ob_reports = []
   samples = []
-  tot = dict(paths=0, queries=0, solver_s=0.0, jobs=0, discharged=0, cpu=0.0)
+  tot = dict(paths=0, queries=0, solver_s=0.0, jobs=0, discharged=0, cpu=0.0,
+             evals=0, nontrivial=0)
   for ob in obs:
     mname = 'vf.canary' if ob.name.startswith('canary') else modname
     rows = by_ob.get(ob.name, [])
@@ -240,6 +241,11 @@ def main():
       tot['jobs'] += 1
       tot['paths'] += r.get('paths', 0) or 0
       ob_paths += r.get('paths', 0) or 0
+      tot['evals'] += ((r.get('paths', 0) or 0) + (r.get('ignored_paths', 0) or 0)
+                       + (r.get('unknown_paths', 0) or 0))
+      if not ob.name.startswith('canary') and ob.expect == 'hold':
+        tot['nontrivial'] += (r.get('confirmed_paths', 0) or 0) if ob.kind == 'xh' \
+            else (r.get('paths', 0) or 0)
       tot['queries'] += r.get('queries', 0) or 0
       tot['solver_s'] += r.get('solver_s', 0.0) or 0.0
       tot['cpu'] += r.get('cpu_s', r.get('wall_s', 0.0)) or 0.0
@@ -374,12 +380,17 @@ def main():
                 'are inconclusive, not success. ' + getattr(mod, 'EXPLANATION', '')),
             obligations=n_ob, discharged=tot['discharged'],
             inconclusive=len(inconclusive),
-            evaluations=tot['paths'], distinct_nontrivial=tot['paths'],
-            rule=('evaluations = symbolic execution paths (each a distinct, '
+            evaluations=max(tot['evals'], 1),
+            distinct_nontrivial=tot['nontrivial'],
+            rule=('evaluations = every explored symbolic path (each a distinct, '
                   'z3-feasible path condition over the harness arguments, i.e. an '
-                  'equivalence class of inputs) plus SMT queries; every path is '
-                  'distinct by construction of the path tree; a path is counted '
-                  'only if it reached the final assertion'),
+                  'equivalence class of inputs), including paths cut by the '
+                  'precondition, plus SMT queries of solver-only obligations; '
+                  'distinct_nontrivial = the paths that satisfied the precondition '
+                  'and reached the final assertion (canaries and negative controls '
+                  'excluded) plus discharged SMT queries; paths are distinct by '
+                  'construction of the path tree'),
+            paths_reaching_assertion=tot['paths'],
             jobs=tot['jobs'], smt_queries=tot['queries'],
             solver_s=round(tot['solver_s'], 2), cpu_s=round(tot['cpu'], 1),
             functions_encoded=funcs,
